@@ -87,6 +87,10 @@ prop('C06', 'periodic tessellation equals that of the infinitely replicated poin
   pe('images27_suffice', "images27_suffice'", 'T06.1 the 3^d images decide membership in the periodic cell'),
   pe('query_shift_is_image', 'shift_equiv_image', 'T06.4 searching with the query shifted by s looks at the image shifted by -s'),
   pe('reported_shift', 'reportedShift_spec', 'T06.4 the reported shift is absent iff zero and has components in {-w,0,w}'),
+  pe('wrapped_generator_same_images', 'images_of_wrapped', 'T06.3 wrapping a translated generator back into the box leaves the set of its periodic images unchanged'),
+  pe('image_of_translate', 'image_translate', 'T06.3 translating a generator translates all its images'),
+  ('cell_translates', 'MVoro.Proofs.VorSet', 'MVoro.VorSet', 'Vor_translate', 'T06.3 translating all sites translates every Voronoi region (any index set, e.g. all periodic images): measures are unchanged'),
+  ('face_translates', 'MVoro.Proofs.VorSet', 'MVoro.VorSet', 'face_translate', 'T06.3 and every face'),
 ])
 prop('C08', '1D and 2D tessellations depend only on the active coordinates', ['MVoro.Proofs.Periodic', 'MVoro.Proofs.VorSet'], [
   pe('cell_1d_closed_form', 'cell_1d_eq', 'T08.2 the 1D cell is the interval between the midpoints to the sorted neighbours (walls at the ends)'),
